@@ -17,7 +17,8 @@ from props import c13_ir as ir
 def gen_text(rng: Any) -> dict:
     """a proggen program (unused results, effectful calls, scf nests, cf diamonds/loops with dead
     cycles through block arguments) whose @main gets unreachable blocks appended"""
-    cfg = proggen.Config(select=rng.random() < 0.5, max_stmts=rng.choice([4, 6, 8, 10]))
+    cfg = proggen.Config(select=rng.random() < 0.5, max_stmts=rng.choice([4, 6, 8, 10]),
+                         loop_shapes=rng.choice([[], [], ["while"], ["nest", "while"]]))
     g = proggen.ProgGen(rng, cfg)
     p = g.program()
     text = p["text"]
